@@ -542,6 +542,25 @@ pub fn run(args: &Args, rec: &mut Recorder) {
                 return None;
             }
         };
+        // nothing was added: sort_new_items() has nothing to place and must leave every line where it is
+        if case % 4 == 1 {
+            let mut c = a2l.clone();
+            match vcommon::runtime::guarded(|| c.sort_new_items()) {
+                Err((sig, detail)) => rec.violation(&format!("{sig} in sort_new_items"), &detail, witness_text("C05", &r.text, "sort_new_items()")),
+                Ok(()) => {
+                    rec.bump("sort_new_items_without_new_elements");
+                    if let Ok(out2) = write(&c) {
+                        if out2 != out {
+                            rec.violation(
+                                "sort_new_items() on a freshly loaded file changes the written text",
+                                &format!("first difference: {}", first_diff_line(&out, &out2)),
+                                witness_text("C05", &r.text, "sort_new_items()"),
+                            );
+                        }
+                    }
+                }
+            }
+        }
         let f = crate::c01::features(&r.text);
         let suffix = if f.multiline_block_comment {
             " [input has a multi-line block comment]"
@@ -603,6 +622,7 @@ pub fn run(args: &Args, rec: &mut Recorder) {
     rec.floor("edit.field_edit", 5);
     rec.floor("edit.remove_child", 5);
     rec.floor("edit.push", 5);
+    rec.floor("sort_new_items_without_new_elements", 100);
     rec.floor("edit.remove", 5);
     for e in &g.elements {
         for t in &e.tags {
